@@ -102,6 +102,7 @@ func (M6) TableName() string { return "t6" }
 type FDesc struct {
 	ColTag bool `json:"coltag"` // an explicit column: tag
 	DBDef  bool `json:"dbdef"`  // default:(expr) — a database-side default gorm does not parse
+	LitDef bool `json:"litdef,omitempty"` // default:0 / default:'' — a literal default equal to the zero value (changes nothing)
 	Name string `json:"name"`
 	Col  string `json:"col"`  // physical column of the hand-made table (exists even for ignored fields)
 	Kind string `json:"kind"` // int | str | time | unix | milli
@@ -196,6 +197,13 @@ func gormTag(f FDesc, defaultCol string) string {
 	if f.ColTag {
 		parts = append(parts, "column:"+f.Col)
 	}
+	if f.LitDef {
+		if f.Kind == "str" {
+			parts = append(parts, "default:''")
+		} else {
+			parts = append(parts, "default:0")
+		}
+	}
 	if f.DBDef {
 		if f.Kind == "str" {
 			parts = append(parts, "default:(lower('NONE'))")
@@ -226,10 +234,14 @@ func gormTag(f FDesc, defaultCol string) string {
 	}
 	byName := f.Name == "CreatedAt" || f.Name == "UpdatedAt"
 	switch {
-	case f.Auto == "create" && !byName:
-		parts = append(parts, "autoCreateTime")
 	case f.Auto == "update" && f.Kind == "milli":
 		parts = append(parts, "autoUpdateTime:milli")
+	case f.Auto == "update" && f.Kind == "nano":
+		parts = append(parts, "autoUpdateTime:nano")
+	case f.Auto == "create" && f.Kind == "nano":
+		parts = append(parts, "autoCreateTime:nano")
+	case f.Auto == "create" && !byName:
+		parts = append(parts, "autoCreateTime")
 	case f.Auto == "update" && !byName:
 		parts = append(parts, "autoUpdateTime")
 	}
@@ -305,6 +317,7 @@ func genType(r *lib.Rng) (string, []FDesc) {
 		// a database-side default only on fields gorm keeps a data type for ("-" / "-:all" clear it and the
 		// field then never reaches FieldsWithDefaultDBValue, whatever "<-" says: contradictory tags, not generated)
 		f.DBDef = f.Dash == "" && r.Chance(1, 4)
+		f.LitDef = !f.DBDef && r.Chance(1, 5)
 		fs = append(fs, f)
 	}
 	if r.Chance(2, 3) {
@@ -315,14 +328,14 @@ func genType(r *lib.Rng) (string, []FDesc) {
 		fs = append(fs, f)
 	}
 	if r.Chance(3, 4) {
-		f := FDesc{Name: "UpdatedAt", Col: "updated_at", Kind: lib.Pick(r, []string{"time", "time", "unix", "milli"}), Auto: "update"}
+		f := FDesc{Name: "UpdatedAt", Col: "updated_at", Kind: lib.Pick(r, []string{"time", "time", "unix", "milli", "nano"}), Auto: "update"}
 		if r.Chance(1, 3) {
 			perm(&f)
 		}
 		fs = append(fs, f)
 	}
 	if r.Chance(1, 4) {
-		f := FDesc{Name: "Touched", Col: "touched", Kind: lib.Pick(r, []string{"time", "unix"}), Auto: lib.Pick(r, []string{"update", "create"})}
+		f := FDesc{Name: "Touched", Col: "touched", Kind: lib.Pick(r, []string{"time", "unix", "nano"}), Auto: lib.Pick(r, []string{"update", "create"})}
 		if r.Chance(1, 3) {
 			perm(&f)
 		}
@@ -340,7 +353,9 @@ type SItem struct {
 }
 
 // PV: one payload entry: field index, spelling of the map key (col | field), zero value or not.
+// (PV.Form: how a map value is passed in an update: "" plain | expr gorm.Expr("(?)", v) | sub a subquery SELECT ?)
 type PV struct {
+	Form  string `json:"form,omitempty"`
 	Field int    `json:"field"`
 	Spell string `json:"spell,omitempty"`
 	Zero  bool   `json:"zero"`
@@ -367,6 +382,10 @@ type Input struct {
 	Ptr      bool    `json:"ptr"`   // updates_struct: pass a pointer to the payload struct
 	// foc_assign / foi_assign: [Model(&T{}).]Where(rows).[Attrs(map).]Assign(map = Rows[0]).FirstOrCreate/FirstOrInit
 	ChainModel bool `json:"chain_model"`
+	NoReturn   bool `json:"no_returning"`          // dialector without RETURNING
+	MapPtr     bool `json:"map_ptr,omitempty"`     // create_map: Create(&m); create_maps: Create(ms) by value
+	BatchMode  string `json:"batch_mode,omitempty"` // create_batch: "" CreateInBatches/Create | session: Session{CreateBatchSize}
+	Returning  bool `json:"returning,omitempty"`   // updates: Clauses(clause.Returning{}) on the chain
 	Attrs      *Row `json:"attrs,omitempty"`
 }
 type Cell struct {
@@ -403,7 +422,7 @@ func fmtTime(t time.Time) string { return t.UTC().Format(time.RFC3339Nano) }
 // value of field j (kind k) in the payload: a non-zero value unlike anything stored, or the zero value
 func payValue(f FDesc, j int, zero bool) interface{} {
 	switch f.Kind {
-	case "int", "unix", "milli":
+	case "int", "unix", "milli", "nano":
 		if zero {
 			return int64(0)
 		}
@@ -432,7 +451,7 @@ func repr(v interface{}) string {
 }
 func storedValue(f FDesc, j int, id int64) interface{} {
 	switch f.Kind {
-	case "int", "unix", "milli":
+	case "int", "unix", "milli", "nano":
 		return int64(100 + 10*id + int64(j))
 	case "str":
 		return fmt.Sprintf("s%d_%d", id, j)
@@ -445,6 +464,8 @@ func nowRepr(f FDesc) string {
 		return fmt.Sprint(nowT.Unix())
 	case "milli":
 		return fmt.Sprint(nowT.UnixMilli())
+	case "nano":
+		return fmt.Sprint(nowT.UnixNano())
 	case "time":
 		return fmtTime(nowT)
 	}
@@ -454,27 +475,28 @@ func nowRepr(f FDesc) string {
 // ---- database ------------------------------------------------------------------------------------
 
 type env struct {
-	db  *gorm.DB
-	sql *sql.DB
+	db      *gorm.DB
+	sql     *sql.DB
+	created map[string]bool
 }
 
-func openEnv() *env {
-	db, _, sqlDB, err := gdb.Open(gdb.Opt{Config: &gorm.Config{NowFunc: func() time.Time { return nowT }}})
+// openEnv: SQLite as it is (INSERT/UPDATE ... RETURNING) or made to look too old for RETURNING (the
+// Create callback then uses Exec + LastInsertId and back-fills the keys itself)
+func openEnv(noReturning bool) *env {
+	db, _, sqlDB, err := gdb.Open(gdb.Opt{NoReturning: noReturning, Config: &gorm.Config{NowFunc: func() time.Time { return nowT }}})
 	lib.Must(err)
-	e := &env{db, sqlDB}
+	e := &env{db: db, sql: sqlDB, created: map[string]bool{}}
 	for _, t := range types {
 		e.createTable(t)
 	}
 	return e
 }
 
-var created = map[string]bool{}
-
 func (e *env) createTable(t TDesc) {
-	if created[t.Table] {
+	if e.created[t.Table] {
 		return
 	}
-	created[t.Table] = true
+	e.created[t.Table] = true
 	{
 		var cols, pks []string
 		for _, f := range t.Fields {
@@ -578,6 +600,8 @@ func itemString(t TDesc, s SItem) string {
 		return t.Table + "." + t.Fields[s.Field].Col
 	case "tabstar":
 		return t.Table + ".*"
+	case "weird":
+		return "upper(nosuch)"
 	}
 	return "nosuch"
 }
@@ -600,6 +624,18 @@ func buildStruct(t TDesc, r Row) reflect.Value {
 	}
 	return p
 }
+var rawDB *gorm.DB // handle used to build subquery values
+
+func formed(pv PV, v interface{}) interface{} {
+	switch pv.Form {
+	case "expr":
+		return gorm.Expr("(?)", v)
+	case "sub":
+		return rawDB.Raw("SELECT ?", v)
+	}
+	return v
+}
+
 func buildMap(t TDesc, r Row) map[string]interface{} {
 	m := map[string]interface{}{}
 	for _, pv := range r.PV {
@@ -608,13 +644,14 @@ func buildMap(t TDesc, r Row) map[string]interface{} {
 		if pv.Spell == "field" {
 			k = f.Name
 		}
-		m[k] = payValue(f, pv.Field, pv.Zero)
+		m[k] = formed(pv, payValue(f, pv.Field, pv.Zero))
 	}
 	return m
 }
 
 func run(e *env, in Input) Obs {
 	var o Obs
+	rawDB = e.db
 	t := typeOf(in)
 	e.createTable(t)
 	if err := e.restore(t); err != nil {
@@ -661,6 +698,9 @@ func run(e *env, in Input) Obs {
 	} else if isUpdate || in.Kind == "create_map" || in.Kind == "create_maps" || in.ChainModel {
 		tx = tx.Model(model.Interface())
 	}
+	if in.Returning {
+		tx = tx.Clauses(clause.Returning{})
+	}
 	if in.HasWhere {
 		tx = tx.Where("rid IN ?", in.WhereIDs) // rid = identity of the stored row (= its key for single-key types)
 	}
@@ -689,9 +729,12 @@ func run(e *env, in Input) Obs {
 		}
 		p := reflect.New(sl.Type())
 		p.Elem().Set(sl)
-		if in.Batch > 0 {
+		switch {
+		case in.Batch > 0 && in.BatchMode == "session":
+			res = tx.Session(&gorm.Session{CreateBatchSize: in.Batch}).Create(p.Interface())
+		case in.Batch > 0:
 			res = tx.CreateInBatches(p.Interface(), in.Batch)
-		} else {
+		default:
 			res = tx.Create(p.Interface())
 		}
 	case "create_map":
@@ -699,7 +742,11 @@ func run(e *env, in Input) Obs {
 		if in.Rows[0].ID != 0 {
 			m["id"] = in.Rows[0].ID
 		}
-		res = tx.Create(m)
+		if in.MapPtr {
+			res = tx.Create(&m)
+		} else {
+			res = tx.Create(m)
+		}
 	case "create_maps":
 		ms := []map[string]interface{}{}
 		for _, r := range in.Rows {
@@ -709,7 +756,11 @@ func run(e *env, in Input) Obs {
 			}
 			ms = append(ms, m)
 		}
-		res = tx.Create(&ms)
+		if in.MapPtr {
+			res = tx.Create(ms) // the slice of maps by value
+		} else {
+			res = tx.Create(&ms)
+		}
 	case "foc_assign", "foi_assign":
 		if in.Attrs != nil {
 			tx = tx.Attrs(buildMap(t, *in.Attrs))
@@ -741,7 +792,7 @@ func run(e *env, in Input) Obs {
 		if pv.Spell == "field" {
 			k = f.Name
 		}
-		res = tx.Update(k, payValue(f, pv.Field, pv.Zero))
+		res = tx.Update(k, formed(pv, payValue(f, pv.Field, pv.Zero)))
 	case "update_column":
 		pv := in.Rows[0].PV[0]
 		f := t.Fields[pv.Field]
@@ -749,7 +800,7 @@ func run(e *env, in Input) Obs {
 		if pv.Spell == "field" {
 			k = f.Name
 		}
-		res = tx.UpdateColumn(k, payValue(f, pv.Field, pv.Zero))
+		res = tx.UpdateColumn(k, formed(pv, payValue(f, pv.Field, pv.Zero)))
 	case "updates_struct", "update_columns_struct":
 		p := buildStruct(t, in.Rows[0])
 		var arg interface{} = p.Elem().Interface()
@@ -782,6 +833,9 @@ func run(e *env, in Input) Obs {
 	// payload per row id (for the "pay" classification)
 	payOf := func(id int64) (map[int]bool, int64) { // field -> zero ; payload key
 		m := map[int]bool{}
+		if len(in.Rows) == 0 {
+			return m, 0
+		}
 		pick := in.Rows[0]
 		if id > 1000 && int(id-1001) < len(in.Rows) {
 			pick = in.Rows[id-1001]
@@ -861,6 +915,8 @@ func gItem(t TDesc, s SItem) string {
 		return lib.App("STab", lib.Str(t.Table), lib.Str(t.Fields[s.Field].Col))
 	case "tabstar":
 		return lib.App("STabStar", lib.Str(t.Table))
+	case "weird":
+		return lib.App("SName", lib.Str("upper(nosuch)"))
 	}
 	return lib.App("SName", lib.Str("nosuch"))
 }
@@ -1013,7 +1069,7 @@ func genItems(r *lib.Rng, t TDesc, n int, allowStar bool, edge bool) []SItem {
 			form = lib.Pick(r, []string{"star", "star", "tabstar"})
 		}
 		if edge && r.Chance(1, 6) {
-			form = "unknown"
+			form = lib.Pick(r, []string{"unknown", "weird"})
 		}
 		out = append(out, SItem{form, j})
 	}
@@ -1034,13 +1090,15 @@ func structRow(r *lib.Rng, t TDesc, id int64, pzNum, pzDen int, edge bool) Row {
 	}
 	return row
 }
+var mapRowUpdate bool // the map is an update payload: value forms and column-less fields (by Go name) allowed
+
 func mapRow(r *lib.Rng, t TDesc, id int64, n int, edge bool) Row {
 	row := Row{ID: id}
 	cand := []int{}
 	for _, j := range nonKey(t) {
 		f := t.Fields[j]
-		if !hasColumn(f) {
-			continue // map keys name existing columns
+		if !hasColumn(f) && !(mapRowUpdate && edge) {
+			continue // map keys name existing columns (a column-less field may be named, by its Go name, in updates)
 		}
 		if f.Auto != "" && !(edge && r.Chance(1, 4)) {
 			continue
@@ -1056,7 +1114,14 @@ func mapRow(r *lib.Rng, t TDesc, id int64, n int, edge bool) Row {
 		if r.Chance(1, 3) {
 			sp = "field"
 		}
-		row.PV = append(row.PV, PV{Field: j, Spell: sp, Zero: r.Chance(1, 3)})
+		if !hasColumn(t.Fields[j]) {
+			sp = "field"
+		}
+		pv := PV{Field: j, Spell: sp, Zero: r.Chance(1, 3)}
+		if mapRowUpdate && r.Chance(1, 4) {
+			pv.Form = lib.Pick(r, []string{"expr", "sub"})
+		}
+		row.PV = append(row.PV, pv)
 	}
 	return row
 }
@@ -1204,12 +1269,14 @@ func genInput(r *lib.Rng, edge bool, dyn *Input) Input {
 		}
 		in.Rows = []Row{structRow(r, t, id, 1, 3, edge)}
 	default: // updates
+		mapRowUpdate = true
 		switch in.Kind {
 		case "update", "update_column":
 			in.Rows = []Row{mapRow(r, t, 0, 1, edge)}
 		case "updates_map", "update_columns_map":
 			in.Rows = []Row{mapRow(r, t, 0, r.Range(1, 4), edge)}
 		}
+		mapRowUpdate = false
 		if len(in.Rows) == 1 && len(in.Rows[0].PV) == 0 { // no column a map may name
 			in.Rows = nil
 			if in.Kind == "update" || in.Kind == "updates_map" {
@@ -1305,6 +1372,35 @@ func genInput(r *lib.Rng, edge bool, dyn *Input) Input {
 			}
 		}
 	}
+	// dimensions independent of the finisher
+	in.NoReturn = r.Chance(1, 3)
+	isUpd := strings.HasPrefix(in.Kind, "update")
+	switch in.Kind {
+	case "create_map":
+		in.MapPtr = r.Bool()
+	case "create_maps":
+		// the slice of maps BY VALUE only without RETURNING: with RETURNING gorm fails to scan the returned
+		// keys into a non-pointer []map (Scan error, or a reflect panic) and rolls the insert back — reported
+		// to the lead as a defect of the Create path (C03), not a C10 matter
+		in.MapPtr = in.NoReturn && r.Bool()
+	case "create_batch":
+		if in.Batch > 0 && r.Chance(1, 3) {
+			in.BatchMode = "session"
+		}
+		if edge && in.Batch == 0 && r.Chance(1, 8) {
+			in.Rows = nil // an empty slice: ErrEmptySlice, nothing written
+		}
+	}
+	if in.Kind == "create_maps" && edge && r.Chance(1, 8) {
+		in.Rows = nil
+	}
+	if isUpd && !in.NoReturn && r.Chance(1, 4) {
+		in.Returning = true
+	}
+	if isUpd && edge && r.Chance(1, 6) {
+		// neither a key in the model value nor a condition: ErrMissingWhereClause, nothing written
+		in.ModelKey, in.ModelLoc, in.ModelSlice, in.HasWhere, in.WhereIDs = 0, 0, nil, false, nil
+	}
 	return in
 }
 
@@ -1324,7 +1420,7 @@ func shape(in Input) string {
 		fmt.Fprintf(&sb, "%s%d,", s.Form[:1], s.Field)
 	}
 	sb.WriteString("|p:")
-	for _, row := range in.Rows[:1] {
+	for _, row := range in.Rows {
 		for _, pv := range row.PV {
 			z := "n"
 			if pv.Zero {
@@ -1333,6 +1429,7 @@ func shape(in Input) string {
 			fmt.Fprintf(&sb, "%d%s%s,", pv.Field, z, pv.Spell)
 		}
 	}
+	fmt.Fprintf(&sb, "|nr%v mp%v bm%s rt%v", in.NoReturn, in.MapPtr, in.BatchMode, in.Returning)
 	fmt.Fprintf(&sb, "|k%d.%d%v|w%v%d|c%v", in.ModelKey, in.ModelLoc, in.ModelSlice, in.HasWhere, len(in.WhereIDs), in.Cols)
 	return sb.String()
 }
@@ -1387,12 +1484,12 @@ func sig(in Input) string { return "" }
 
 func main() {
 	a := lib.ParseArgs()
-	e := openEnv()
+	envs := map[bool]*env{false: openEnv(false), true: openEnv(true)}
 	out := lib.NewOut(a.Out, "C10")
 	out.PerFile = 250
 
 	add := func(kind string, in Input) {
-		o := run(e, in)
+		o := run(envs[in.NoReturn], in)
 		nontriv := len(o.Cells) > 0 && (len(in.Selects)+len(in.Omits) > 0 || in.Type != 0 || in.Dyn != nil)
 		out.Add(lib.Case{Term: term(in, o), JSON: map[string]interface{}{"input": in, "observed": o},
 			Sig: sig(in), Kind: kind, Shape: shape(in), Nontriv: nontriv})
@@ -1429,6 +1526,14 @@ func main() {
 			out.Count("item_form", s.Form)
 		}
 		out.Count("changed_cells", fmt.Sprint(len(o.Cells)))
+		out.Count("dialect_returning", fmt.Sprint(!in.NoReturn))
+		for _, row := range in.Rows {
+			for _, pv := range row.PV {
+				if pv.Form != "" {
+					out.Count("map_value_form", pv.Form)
+				}
+			}
+		}
 		out.Count("error", fmt.Sprint(o.Err != ""))
 		if o.Err != "" {
 			msg := o.Err
